@@ -754,6 +754,88 @@ def case_linecount(tag, total, in_include=0, fail_early=False):
     return [f.cmd() for f in files] + ["load o1 %s/m" % d, "apply o1 go", exp, "dump o1"]
 
 
+def case_include_history(tag, nfill, positions, failing, rng=None):
+    """a template header t.h included several times from the main file, at the given positions of a history of `nfill`
+    other (distinct, one-line) headers: every re-inclusion has to find the id of the EARLIER inclusion among the
+    segments written so far — wherever those lie (first, middle, last entries of A_FILE_INFO) — and get an id of its own;
+    the failing statement is in copy number `failing`"""
+    d = "/c18/%s" % tag
+    p, o = "%s/m.c" % d.lstrip("/"), "%s/m" % d
+    m = Src("%s/m.c" % d)
+    m.text("int x_;\nvoid set_oid(string s) {}\n")
+    t = Src("%s/t.h" % d)
+    t.text("// t\n")
+    if rng:
+        t.pad("n", rng.range(0, 12))
+    t.text("int FN(int k) {\n")
+    tl = t.line
+    t.text("  x_ = 10 / k;\n  return x_;\n}\n")
+    files = [m, t]
+    copy = 0
+    names = []
+    for i in range(nfill + 1):
+        while copy < len(positions) and positions[copy] == i:
+            fn = "t%d" % copy
+            names.append(fn)
+            m.text('#define FN %s\n#include "t.h"\n#undef FN\n' % fn)
+            copy += 1
+        if i < nfill:
+            e = Src("%s/e%d.h" % (d, i))
+            e.text("// filler %d\n" % i)
+            files.append(e)
+            m.text('#include "e%d.h"\n' % i)
+    gl = m.line
+    m.text("int go() { return %s; }\n" % " + ".join("%s(%d)" % (n, 0 if j == failing else 1) for j, n in enumerate(names)))
+    frames = [("go", p, o, p, gl, gl), (names[failing], p, o, t.name, tl, tl)]
+    exp = "expect kind=plain file=%s lines=%d-%d program=%s object=%s trace=%s" % (
+        t.name, tl, tl, p, o, "|".join("%s@%s@%s@%s@%d-%d" % f for f in frames))
+    return [f.cmd() for f in files] + ["load o1 %s/m" % d, "apply o1 go", "dump o1", exp]
+
+
+DIAGS = {
+    # kind: (source text of the offending line(s), first words of the message, line of the report relative to the first line)
+    "undefvar": ("int bad_(int k) {\n  zz_undefined_ = k;\n  return k;\n}\n", "Undefined_variable_'zz_undefined_'", 1),
+    "syntax": ("int bad_(int k) {\n  x_ = = k;\n  return k;\n}\n", "syntax_error", 1),
+    "noinc": ('#include "c18_no_such_header.h"\n', "Cannot_#include_c18_no_such_header.h", 0),
+    "badinc": ("#include c18_nonsense\n", "Missing_leading", 0),
+    "undeffun": ("int bad_(int k) {\n  return zz_undefined_fn_(k);\n}\n", "Undefined_function_zz_undefined_fn_", 1),
+    "badtype": ('int bad_(int k) {\n  string s_;\n  s_ = "a";\n  return s_ - ({ 1 });\n}\n', "Invalid_types_to_'-'", 3),
+    "escape": ('#pragma warnings\nint bad_(int k) {\n  return strlen("a\\qb") + k;\n}\n', "Warning:_Unknown_\\_escape", 2),
+    "endif": ("#endif\n", "Unexpected_#endif", 0),
+}
+
+
+def case_diag(tag, kind, where=0, rng=None):
+    """one compile-time diagnostic at a known line of the main file (where = 0) or of an include at nesting depth
+    `where`, the parent files resumed behind it; the report must name that file and that line"""
+    d = "/c18/%s" % tag
+    text, msg, rel = DIAGS[kind]
+    pad = (lambda src: src.pad(rng.choice(["n", "c"]), rng.range(0, 40))) if rng else (lambda src: src.pad("n", 2))
+    m = Src("%s/m.c" % d)
+    m.text("int x_;\nvoid set_oid(string s) {}\n")
+    files = [m] + [Src("%s/d%d.h" % (d, i)) for i in range(1, where + 1)]
+    for i, src in enumerate(files):
+        if i:
+            src.text("// level %d\n" % i)
+        pad(src)
+        if i < where:
+            src.text('#include "d%d.h"\n' % (i + 1))
+            pad(src)
+    src = files[where]
+    line = src.line + rel
+    src.text(text)
+    for i, f in enumerate(files):
+        pad(f)
+        f.text("int ok%d(int k) { return k; }\n" % i)
+    m.text("int go(int k) { return k; }\n")
+    warn = msg.startswith("Warning")
+    out = [f.cmd() for f in files] + ["load o1 %s/m" % d, "expectce file=%s line=%d text=%s" % (src.name, line, msg)]
+    if warn:
+        # a warning does not stop the compilation: keep the case in the compile-diagnostic form by not recording a runtime error
+        pass
+    return out
+
+
 def case_toolarge(tag, nfun=45, nstmt=190):
     """more than 65535 bytes of code (nfun functions of nstmt filler statements, 8 bytes each): function addresses,
     program_size and the offsets find_line works with are 16 bit, so the compiler has to refuse the program"""
@@ -1244,6 +1326,12 @@ class C18(Prop):
                                   {"fail": "div", "origin": "generated", "long": 1}))
         for i in range(n):
             tag = "g%d_%d" % (rng.below(100000), i)
+            if rng.chance(1, 25):
+                nf = rng.range(1, 45)
+                pos = sorted(rng.range(0, nf) for _ in range(rng.range(2, 5)))
+                out.append(E.Case("g%d" % i, (["mode ginc"] if rng.chance(1, 3) else []) + case_include_history(tag, nf, pos, rng.range(1, len(pos) - 1), rng),
+                                  {"fail": "reinclude", "origin": "generated"}))
+                continue
             if rng.chance(1, 14):
                 v = rng.choice(["again", "self", "back"])
                 out.append(E.Case("g%d" % i, case_multi_include(tag, v, rng), {"fail": "reinclude", "origin": "generated"}))
@@ -1252,6 +1340,11 @@ class C18(Prop):
                 tot = rng.choice([65533, 65534, 65535, 65536, 65537, 65600, 131072 + rng.range(0, 40)])
                 out.append(E.Case("g%d" % i, case_linecount(tag, tot, in_include=rng.choice([0, 0, 7, 20000, 65000]), fail_early=rng.chance(1, 3)),
                                   {"fail": "div" if tot <= 65535 else "compile-error", "origin": "generated", "maxline": tot}))
+                continue
+            if rng.chance(1, 30):
+                k = rng.choice(sorted(DIAGS))
+                out.append(E.Case("g%d" % i, (["mode ginc"] if rng.chance(1, 3) else []) + case_diag(tag, k, rng.range(0, 3), rng),
+                                  {"fail": "compile-error", "origin": "generated"}))
                 continue
             if rng.chance(1, 40):
                 lines = case_overlap(tag, rng.choice(["main", "inc"]), rng.range(0, 400))
@@ -1363,6 +1456,9 @@ class C18(Prop):
         mk("manyruns-3000", case_manyruns("b_runs3k", 3000, tail=50), fail="div", long=1)
         mk("manyruns-below-64k", case_manyruns("b_runs21k", 21000, tail=20), fail="div", long=1)
         mk("manyruns-above-64k", case_manyruns("b_runs22k", 21900, tail=100), fail="div", long=1)
+        for i, k in enumerate(sorted(DIAGS)):
+            mk("diag-%s-main" % k, case_diag("b_dg_%s_0" % k, k, 0), fail="compile-error")
+            mk("diag-%s-inc%d" % (k, 1 + i % 3), case_diag("b_dg_%s_i" % k, k, 1 + i % 3), fail="compile-error")
         mk("bigtable-12k", case_bigtable("b_bigt12", 8, 500, 40, nincl=10), fail="div", long=1)
         mk("program-too-large", case_toolarge("b_toolarge"), fail="compile-error")
         mk("ginc-init", ["mode ginc"] + case_init("b_ginc_init", pad=5, funcs=1), fail="init")
@@ -1384,6 +1480,11 @@ class C18(Prop):
         for v in ("again", "self", "back"):
             mk("multi-include-" + v, case_multi_include("b_mi_" + v, v), fail="reinclude")
             mk("multi-include-pad-" + v, case_multi_include("b_mip_" + v, v, rng), fail="reinclude")
+        # the earlier inclusion lies at the first / a middle / the last entries of the include history
+        for name, nf, pos, failing in (("first-last", 24, [0, 24], 1), ("first-mid-last", 30, [0, 15, 30], 2), ("adjacent", 20, [10, 10], 1),
+                                       ("late-pair", 40, [38, 40], 1), ("mid-fails", 16, [2, 9, 16], 1), ("five", 12, [0, 3, 6, 9, 12], 4),
+                                       ("early-pair", 40, [1, 3], 1)):
+            mk("include-history-" + name, case_include_history("b_ih_" + name.replace("-", "_"), nf, pos, failing), fail="reinclude")
         mk("reinclude-second", case_reinclude("b_reinc"), fail="reinclude")
         mk("reinclude-first", case_reinclude("b_reinc1", first_ok=True), fail="reinclude-first")
         return B
